@@ -2,7 +2,7 @@
    `http` crate (http 1.x) and to std:
 
      HeaderName::from_lowercase   -> name_ok      (HEADER_CHARS_H2 table, 1..=65535 octets)
-     HeaderValue::from_bytes      -> value_ok     (b >= 32 && b != 127 || b == '\t')
+     HeaderValue::from_bytes      -> value_ok     (b >= 32 && b != 127 || b == TAB)
      Method::from_bytes           -> method_ok    (non-empty, METHOD_CHARS table = RFC 9110 tchar)
      StatusCode::from_bytes       -> status_ok    (3 ASCII digits, first one 1..9)
      BytesStr::try_from, Protocol::try_from = std::str::from_utf8 -> utf8_ok
@@ -26,7 +26,8 @@ Fixpoint bstr (s : string) : list N :=
 Definition in_range (lo hi b : N) : bool := (lo <=? b) && (b <=? hi).
 
 (* http::header::name::HEADER_CHARS_H2: non-zero entries.
-   ! " # $ % & '  * +  - .  0-9  ^ _ ` a-z  | ~ *)
+   33..39 (bang, double quote, hash, dollar, percent, ampersand, quote), star, plus, minus, dot,
+   0-9, caret, underscore, backquote, a-z, bar, tilde *)
 Definition name_char_ok (b : N) : bool :=
   in_range 33 39 b || (b =? 42) || (b =? 43) || (b =? 45) || (b =? 46) ||
   in_range 48 57 b || in_range 94 122 b || (b =? 124) || (b =? 126).
@@ -44,7 +45,8 @@ Definition value_char_ok (b : N) : bool := ((32 <=? b) && negb (b =? 127) && (b 
 Definition value_ok (v : list N) : bool := forallb value_char_ok v.
 
 (* http::method::extension::METHOD_CHARS: non-zero entries.
-   !  # $ % & '  * +  - .  0-9  A-Z  ^ _ ` a-z  | ~ *)
+   bang, 35..39 (hash, dollar, percent, ampersand, quote), star, plus, minus, dot, 0-9, A-Z,
+   caret, underscore, backquote, a-z, bar, tilde *)
 Definition method_char_ok (b : N) : bool :=
   (b =? 33) || in_range 35 39 b || (b =? 42) || (b =? 43) || (b =? 45) || (b =? 46) ||
   in_range 48 57 b || in_range 65 90 b || in_range 94 122 b || (b =? 124) || (b =? 126).
